@@ -453,7 +453,7 @@ func c02Static(in *jsAnalysis, out string, c jsConfig) string {
 		}
 	}
 	if c.KeepVarNames {
-		if x, ok := subset(oa.Idents, in.Idents); !ok {
+		if x, ok := subset(oa.Idents, in.Idents); !ok && x != "undefined" && x != "NaN" && x != "Infinity" {
 			return fmt.Sprintf("KeepVarNames: identifier %q of the output does not occur in the input", x)
 		}
 	}
